@@ -1,64 +1,24 @@
-"""Per-property configuration of ./check (modules holding the property theorems, the
-harness areas that tie the model to the code, budgets, what stays partial)."""
+"""Per-property configuration of ./check: one file cfg/Cnn.py per claimed property, each defining
+PROP (modules holding the property theorems, required theorem names, harness areas with
+(area, quick_n, thorough_n), what stays partial, ...) and LEVEL (text/note/technique for MANIFEST)."""
+import glob, os, importlib.util, json
 
-PROPS = {
-    "C03": dict(
-        modules=["SfntV.Props.C03"],
-        required_theorems=["C03_no_panic", "C03_ok_iff", "C03_wellformed", "C03_parse_write", "C03_tables_kept", "C03_perm"],
-        areas=[("header", 500, 8000)],
-        rule="distinct case lines (scaler, tag->bytes map / file bytes); non-trivial = at least two tables",
-        partial=["clause 'an independent sfnt implementation reading a complete font file reports the same glyph count, units per em, mapping, widths, names, outlines' is a corollary of C09/C11/C12/C14 spec decoders and is only as complete as those; x/image oracle not yet wired",
-                 "C03_read_write (model of header.Read on the written file) is checked by correspondence only (stream header.read), not yet a theorem"],
-        modelled_not_verified=["encoding/binary.Write and sort.Slice re-implemented in Lean (be16/be32, mergeSort) and compared by byte-exact correspondence",
-                               "uint32 wrap of offsets is outside Dom (file size < 2^32)"],
-        assumptions=["Dom: map keys distinct (Go map), file size < 2^32, fewer than 4096 tables (16-bit searchRange)"],
-    ),
-    "C17": dict(
-        modules=["SfntV.Props.C17"],
-        required_theorems=["C17_refines", "C17_histories", "C17_spec_fixed", "C17_spec_bulk"],
-        areas=[("parser", 3000, 60000)],
-        rule="distinct case lines (input bytes, chunk oracle, op history); non-trivial = history of >= 2 ops on a non-empty input",
-        partial=[],
-        modelled_not_verified=["underlying io.ReadSeeker modelled as a short-read oracle delivering 1..min(wanted,available) bytes; readers returning errors are outside C17 (see C18)",
-                               "a Read that returns (0, nil) forever is excluded (io.Reader contract discourages it)"],
-        assumptions=["ReadBytes(n) only with n <= bufferSize (documented; the code panics otherwise)",
-                     "SeekPos only to non-negative offsets"],
-    ),
-}
+_here = os.path.dirname(os.path.abspath(__file__))
+PROPS, LEVEL_TEXT = {}, {}
+for _f in sorted(glob.glob(os.path.join(_here, "cfg", "C*.py"))):
+    _pid = os.path.basename(_f)[:-3]
+    _spec = importlib.util.spec_from_file_location("cfg_" + _pid, _f)
+    _m = importlib.util.module_from_spec(_spec)
+    _spec.loader.exec_module(_m)
+    PROPS[_pid] = _m.PROP
+    LEVEL_TEXT[_pid] = _m.LEVEL
 
-LEVEL_TEXT = {
-    "C03": dict(
-        text="Proof: for every scaler type and every tag->bytes map in Dom, the model of header.Write yields bytes satisfying an independent executable definition of a well-formed sfnt container (sorted directory, search fields, alignment, containment, disjointness, per-table checksums, whole-file checksum 0xB1B0AFBA), an independent directory parser recovers exactly the written bodies, the writer never panics, and the output is independent of map iteration order. Tied to header/write.go by byte-exact correspondence (model bytes = Go bytes) and by evaluating WellFormed/specParse on the Go-written bytes; ttTableOrder and the magic constant are regenerated from the source.",
-        note="Trusted: Lean kernel + 3 standard axioms; hand-written model of header.Write/Read mirrors the code as checked by sampled byte-exact correspondence; WellFormed is my reading of the OpenType font-file chapter.",
-        technique="Lean 4 proof about the writer model against an executable well-formedness spec + byte-exact differential correspondence",
-    ),
-    "C17": dict(
-        text="Proof: the model of parser.Parser (every exported method, refill loop, arbitrary short-read oracle) is proved in Lean to produce, for every input, every oracle and every finite operation history, exactly the outputs of a cursor over the plain byte slice (C17_histories), with closed forms for fixed and bulk reads. The model is tied to parser/parser.go by output-exact correspondence on exhaustive short and random long histories around the 1024-byte boundary; bufferSize is regenerated from the source.",
-        note="Trusted: Lean kernel + 3 standard axioms; the hand-written model mirrors parser.go as checked by the sampled correspondence (verdict stream: outputs and Pos after every op; diagnostic: window state via verif hook); underlying reader = short-read oracle without errors.",
-        technique="Lean 4 refinement proof (invariant + induction over histories) + differential correspondence",
-    ),
-}
-
-# Properties not (yet) claimed, each with the reason.  Kept current as checks are added.
-NOT_APPLICABLE = {
-    "C01": "not yet claimed: model/theorems for this property are still being built (see DESIGN.md §10 order of work); no other technique is substituted",
-    "C02": "not yet claimed: model/theorems for this property are still being built (see DESIGN.md §10 order of work); no other technique is substituted",
-    "C03": "not yet claimed: model/theorems for this property are still being built (see DESIGN.md §10 order of work); no other technique is substituted",
-    "C04": "not yet claimed: model/theorems for this property are still being built (see DESIGN.md §10 order of work); no other technique is substituted",
-    "C05": "not yet claimed: model/theorems for this property are still being built (see DESIGN.md §10 order of work); no other technique is substituted",
-    "C06": "not yet claimed: model/theorems for this property are still being built (see DESIGN.md §10 order of work); no other technique is substituted",
-    "C07": "not yet claimed: model/theorems for this property are still being built (see DESIGN.md §10 order of work); no other technique is substituted",
-    "C08": "not yet claimed: model/theorems for this property are still being built (see DESIGN.md §10 order of work); no other technique is substituted",
-    "C09": "not yet claimed: model/theorems for this property are still being built (see DESIGN.md §10 order of work); no other technique is substituted",
-    "C10": "not yet claimed: model/theorems for this property are still being built (see DESIGN.md §10 order of work); no other technique is substituted",
-    "C11": "not yet claimed: model/theorems for this property are still being built (see DESIGN.md §10 order of work); no other technique is substituted",
-    "C12": "not yet claimed: model/theorems for this property are still being built (see DESIGN.md §10 order of work); no other technique is substituted",
-    "C13": "not yet claimed: model/theorems for this property are still being built (see DESIGN.md §10 order of work); no other technique is substituted",
-    "C14": "not yet claimed: model/theorems for this property are still being built (see DESIGN.md §10 order of work); no other technique is substituted",
-    "C15": "not yet claimed: model/theorems for this property are still being built (see DESIGN.md §10 order of work); no other technique is substituted",
-    "C16": "not yet claimed: model/theorems for this property are still being built (see DESIGN.md §10 order of work); no other technique is substituted",
-    "C18": "not yet claimed: model/theorems for this property are still being built (see DESIGN.md §10 order of work); no other technique is substituted",
-    "C19": "not yet claimed: model/theorems for this property are still being built (see DESIGN.md §10 order of work); no other technique is substituted",
-    "C20": "not yet claimed: model/theorems for this property are still being built (see DESIGN.md §10 order of work); no other technique is substituted",
-}
-NOT_APPLICABLE = {k: v for k, v in NOT_APPLICABLE.items() if k not in PROPS}
+_ids = [json.loads(l)["id"] for l in open(os.path.join(_here, "properties.jsonl")) if l.strip()]
+# Properties not (yet) claimed, each with the reason.
+_REASONS = {}
+try:
+    _REASONS = json.load(open(os.path.join(_here, "cfg", "not_applicable.json")))
+except Exception:
+    pass
+NOT_APPLICABLE = {i: _REASONS.get(i, "not yet claimed: model/theorems for this property are still being built (DESIGN.md section 10 order of work); no other technique is substituted")
+                  for i in _ids if i not in PROPS}
